@@ -109,7 +109,7 @@ def step_rules(ctx, m, owners):
             ctx.lost("step", tag + " processing loop")
             continue
         adt = "bourse_de::env::Env" if owner == "Env" else "bourse_de::market_env::MarketEnv"
-        fields = {x["name"]: x["ty"] for x in ctx.prog.adt_fields(adt)}
+        fields = m.deep_fields(adt)
         rec_f = [n for n, t in fields.items() if "Level2DataRecords" in t]
         snap_f = [n for n, t in fields.items() if "Level2Data<" in t and "Records" not in t]
         tv_f = [n for n, t in fields.items() if "Vec<u32>" in t]
@@ -118,8 +118,18 @@ def step_rules(ctx, m, owners):
             continue
         rec_f, snap_f, tv_f = rec_f[0], snap_f[0], tv_f[0]
         aps = [c for c in sq.calls("append_record")]
-        tvp = [c for c in sq.calls("push") if fld(c.args[0], tv_f) or any(fld(x, tv_f) for x in walk(c.args[0]) if x[0] == "field")]
         after = lambda c: c.b not in s.body and sq.cfg.strictly_after(s.head, c.b)  # noqa: E731
+        # the per-asset recording loop (multi-asset): read through its symbolic item, so that `enumerate().take(ASSETS)`,
+        # `for asset in 0..ASSETS` and a zip over the per-asset arrays all mean "position i of every per-asset array"
+        from analysis.iterelem import loop_item, rewrite, I as POS
+        rec_next = [c for c in sq.calls("next") if c.b != s.loop_next.b and sq.cfg.in_loop(c.b) and after(c)]
+        sym = bounds = None
+        if owner != "Env" and len(rec_next) == 1:
+            sym, bounds = loop_item(sq, rec_next[0])
+
+        def rw(e):
+            return rewrite(e, rec_next[0], sym) if sym is not None else e
+        tvp = [c for c in sq.calls("push") if fld(rw(c.args[0]), tv_f) or any(fld(x, tv_f) for x in walk(rw(c.args[0])) if x[0] == "field")]
         ctx.check(len(aps) == 1 and after(aps[0]), "step", tag + "|append-once", aps[0].loc() if aps else ctx.loc(f), "one append_record per step, after the processing loop",
                   "%d append_record calls / not after the loop" % len(aps))
         ctx.check(len(tvp) == 1 and after(tvp[0]), "step", tag + "|tradevol-once", tvp[0].loc() if tvp else ctx.loc(f), "one traded-volume push per step, after the processing loop",
@@ -136,45 +146,39 @@ def step_rules(ctx, m, owners):
             gv = [c for c in sq.calls("get_trade_vol")]
             ctx.check(all(after(c) for c in gv), "step", tag + "|tradevol-after", t.loc(), "the counter is read after the processing loop")
         else:
-            # per-asset loop: records[i] <- data[i]; trade_vols[i] <- get_trade_vols()[i]
-            inner_next = [c for c in sq.calls("next") if c.b != s.loop_next.b and sq.cfg.in_loop(c.b) and after(c)]
-            ok = len(inner_next) == 1
-            idx = None
+            # coverage: every asset, once
+            ok = sym is not None
+            cover = []
             if ok:
-                ch = s.iter_chain(inner_next[0])
-                base = ch[-1] if ch else None
-                adapters = [n for n in (ch[:-1] if ch else []) if n not in ("into_iter", "iter", "enumerate")]
-                take_ok = adapters in ([], ["take"])
-                if adapters == ["take"]:
-                    # take(ASSETS) over an array of length ASSETS keeps every element
-                    tk = [c for c in sq.calls("take") if "Iterator" in (c.term.j.get("trait") or c.resolved)]
-                    take_ok = len(tk) == 1 and "ASSETS" in str(tk[0].args[1][2])
-                res = inner_next[0].result
-                if base is not None and base[0] == "agg" and base[2].endswith("Range::Range") and not adapters and "enumerate" not in ch:
-                    # `for asset in 0..ASSETS { .. trade_vols[asset] .. }`: the value is get_trade_vols()[asset]
-                    lo, hi = base[3]
-                    ok = lo[0] == "const" and lo[3] == 0 and hi[0] == "const" and "ASSETS" in str(hi[2])
-                    idx = ("field", ("downcast", res, "Some"), "0", "std::option::Option")
-                    val = None
-                else:
-                    ok = base is not None and base[0] == "call" and base[4] == "get_trade_vols" and fld(base[2][0], obj) and "enumerate" in ch and take_ok
-                    idx = ("field", ("field", ("downcast", res, "Some"), "0", "std::option::Option"), "0", "")
-                    val = ("field", ("field", ("downcast", res, "Some"), "0", "std::option::Option"), "1", "")
-            ctx.check(ok, "step", tag + "|asset-loop", inner_next[0].loc() if inner_next else ctx.loc(f), "per-asset recording loop covers every asset (enumerate over get_trade_vols() / index loop 0..ASSETS)",
+                for bd in bounds:
+                    if bd[0] == "range":
+                        ok = ok and bd[1][0] == "const" and bd[1][3] == 0 and bd[2][0] == "const" and "ASSETS" in str(bd[2][2])
+                        cover.append("0..ASSETS")
+                    elif bd[0] == "take":
+                        ok = ok and "ASSETS" in str(bd[1][2])
+                        cover.append("take(ASSETS)")
+                    else:
+                        # a per-asset array of the environment / the market's per-asset result
+                        x = bd[1]
+                        okc = fld(x, rec_f) or fld(x, snap_f) or fld(x, tv_f) or (x[0] == "call" and x[4] == "get_trade_vols" and fld(x[2][0], obj)) or \
+                            any(fld(y, rec_f) or fld(y, snap_f) or fld(y, tv_f) for y in walk(x) if y[0] == "field")
+                        ok = ok and okc
+                        cover.append(render(x)[:30])
+                ok = ok and sq.cfg.loop_runs_to_completion(sorted(sq.cfg.loops_containing(rec_next[0].b), key=lambda h: len(sq.body.loop_body(h)))[0])[0]
+            ctx.check(ok, "step", tag + "|asset-loop", rec_next[0].loc() if rec_next else ctx.loc(f), "per-asset recording loop covers every asset once (%s)" % ", ".join(cover),
                       "per-asset recording loop not recognised / restricted")
             if ok:
-                i0 = [x for x in walk(a.args[0]) if x[0] == "index"]
-                i1 = [x for x in walk(a.args[1]) if x[0] == "index"]
-                i2 = [x for x in walk(t.args[0]) if x[0] == "index"]
-                okx = bool(i0 and i1 and i2) and all(same(x[0][2], idx) for x in (i0, i1, i2)) and fld(i0[0][1], rec_f) and fld(i1[0][1], snap_f) and fld(i2[0][1], tv_f)
-                ctx.check(okx, "step", tag + "|asset-index", a.loc(), "records[i] <- snapshot[i] and trade_vols[i] use the same asset index i",
-                          "asset indexes differ: %s / %s / %s" % (render(a.args[0]), render(a.args[1]), render(t.args[0])))
-                if val is not None:
-                    okv = same(t.args[1], val)
-                else:
-                    v = t.args[1]
-                    okv = v[0] == "index" and same(v[2], idx) and v[1][0] == "call" and v[1][4] == "get_trade_vols" and fld(v[1][2][0], obj)
-                ctx.check(okv, "step", tag + "|tradevol-src", t.loc(), "trade_vols[i] <- get_trade_vols()[i]", "trade_vols[i] <- %s" % render(t.args[1]))
+                a0, a1, t0, tv = rw(a.args[0]), rw(a.args[1]), rw(t.args[0]), rw(t.args[1])
+                i0 = [x for x in walk(a0) if x[0] == "index"]
+                i1 = [x for x in walk(a1) if x[0] == "index"]
+                i2 = [x for x in walk(t0) if x[0] == "index"]
+                okx = bool(i0 and i1 and i2) and all(x[0][2] == POS for x in (i0, i1, i2)) and fld(i0[0][1], rec_f) and fld(i1[0][1], snap_f) and fld(i2[0][1], tv_f)
+                ctx.check(okx, "step", tag + "|asset-index", a.loc(), "records[i] <- snapshot[i] and trade_vols[i] use the same asset position i",
+                          "asset positions differ: %s / %s / %s" % (render(a0), render(a1), render(t0)))
+                while tv[0] in ("conv", "cast"):
+                    tv = tv[1] if tv[0] == "conv" else tv[2]
+                okv = tv[0] == "index" and tv[2] == POS and tv[1][0] == "call" and tv[1][4] == "get_trade_vols" and fld(tv[1][2][0], obj)
+                ctx.check(okv, "step", tag + "|tradevol-src", t.loc(), "trade_vols[i] <- get_trade_vols()[i]", "trade_vols[i] <- %s" % render(tv))
                 gv = [c for c in sq.calls("get_trade_vols")]
                 ctx.check(len(gv) == 1 and after(gv[0]), "step", tag + "|tradevol-after", gv[0].loc() if gv else ctx.loc(f), "the counters are read after the processing loop")
         # snapshot refreshed before recording in the same step (C10 checks its source)
@@ -191,11 +195,11 @@ def step_rules(ctx, m, owners):
         getters = {"get_prices": ("prices", None), "get_volumes": ("volumes", None), "get_touch_volumes": ("volumes_at_levels", 0), "get_touch_order_counts": ("orders_at_levels", 0)}
         for gname, (series, lvl) in getters.items():
             g = getter(gname)
-            r = m.q(g).ret()
+            r = m.qi(g).ret()
             if lvl is None:
                 root, ns = names_of(r)
                 ns2 = [x for x in ns if x != "[]"]
-                ok = ns2 == [rec_f, series] and root[0] == "param"
+                ok = ns2[-2:] == [rec_f, series] and root[0] == "param"
                 if owner == "MarketEnv":
                     ix = [x for x in walk(r) if x[0] == "index"]
                     ok = ok and len(ix) == 1 and ix[0][2][0] == "param" and ix[0][2][2] == "asset"
@@ -206,7 +210,7 @@ def step_rules(ctx, m, owners):
                     for side, e in enumerate(r[3]):
                         root, ns = names_of(e)
                         ns2 = [x for x in ns if x != "[]"]
-                        ok = ok and ns2 == [rec_f, series, str(side)] and root[0] == "param"
+                        ok = ok and ns2[-3:] == [rec_f, series, str(side)] and root[0] == "param"
                         ci = [x for x in walk(e) if x[0] == "cindex"] + [x for x in walk(e) if x[0] == "index" and x[2][0] == "const"]
                         ok = ok and len(ci) == 1 and (ci[0][2] == 0 if ci[0][0] == "cindex" else ci[0][2][3] == 0)
                         if owner == "MarketEnv":
@@ -215,16 +219,16 @@ def step_rules(ctx, m, owners):
                 ctx.check(ok, "getters", "%s::%s" % (owner, gname), ctx.loc(g), "%s returns (bid, ask) of self.%s%s.%s at level 0" % (gname, rec_f, "[asset]" if owner == "MarketEnv" else "", series),
                           "%s returns %s" % (gname, render(r)))
         g = getter("get_trade_vols")
-        r = m.q(g).ret()
+        r = m.qi(g).ret()
         root, ns = names_of(r)
-        ok = [x for x in ns if x != "[]"] == [tv_f]
+        ok = [x for x in ns if x != "[]"][-1:] == [tv_f]
         if owner == "MarketEnv":
             ix = [x for x in walk(r) if x[0] == "index"]
             ok = ok and len(ix) == 1 and ix[0][2][0] == "param" and ix[0][2][2] == "asset"
         ctx.check(ok, "getters", "%s::get_trade_vols" % owner, ctx.loc(g), "get_trade_vols returns self.%s%s" % (tv_f, "[asset]" if owner == "MarketEnv" else ""), "get_trade_vols returns %s" % render(r))
         g = getter("get_level_2_data_history")
-        r = m.q(g).ret()
+        r = m.qi(g).ret()
         root, ns = names_of(r)
-        ok = [x for x in ns if x != "[]"] == [rec_f]
+        ok = [x for x in ns if x != "[]"][-1:] == [rec_f]
         ctx.check(ok, "getters", "%s::get_level_2_data_history" % owner, ctx.loc(g), "get_level_2_data_history returns self.%s" % rec_f, "returns %s" % render(r))
     ctx.note("per-step traded volume = volume of the step's trades follows from C03's counter rule plus the reset dominating the loop (C08); it additionally needs batch <= step size")
